@@ -1023,6 +1023,22 @@ func checkPrioStop(vd *Verdict, v *prioView) {
 		return
 	}
 
+	h := hist(v.res.Hist)
+
+	if c, called := h.firstNote("stop2-call"); called {
+		vd.probe("second-concurrent-stop")
+
+		if _, ret := h.firstNote("stop2-returned"); !ret {
+			vd.failFacts("second-stop-not-returned", facts, "a second Stop() (called at seq %d while the first was in progress or done) did not return within %dns; %s", c.Seq, sc.Horizon, stuck(v.res))
+			return
+		}
+	}
+
+	if v.gracefulCall > at && v.gracefulRet < 0 {
+		vd.failFacts("graceful-after-stop-not-returned", facts, "GracefulStop() called after Stop()/cancel did not return within %dns; %s", sc.Horizon, stuck(v.res))
+		return
+	}
+
 	if v.stopCall < 0 && v.cancelSeq >= 0 {
 		if alive := libTasksAlive(v.res); len(alive) > 0 {
 			how := fmt.Sprintf("%dns of simulated time later", sc.Horizon)
